@@ -122,6 +122,26 @@ inline void adopt_small(std::optional<VT> &opt, std::vector<int> &vals, int &bas
   }
 }
 
+/// the other donor shapes of SmallVector(amc::vector&&): 7 nothing to adopt, 8 an empty buffer, 9 spare capacity
+template <class VT>
+inline void adopt_shape(int r, std::optional<VT> &opt, std::vector<int> &vals, int &base) {
+  if constexpr (kSmall) {
+    Donor d;
+    if (r == 8) d.reserve(2);
+    if (r == 9) {
+      d.reserve(N + 2);
+      ++base;
+      d.push_back(E::make(base));
+      vals.push_back(base);
+    }
+    opt.emplace(std::move(d));
+    // the donor is a moved-from vector: empty and usable again
+    if (!d.empty()) vf::fail("C01", "SmallVector(vector&&): the moved-from vector is not empty");
+    d.push_back(E::make(0));
+    if (d.size() != 1) vf::fail("C01", "SmallVector(vector&&): the moved-from vector is not usable");
+  }
+}
+
 /// Build the temporary of recipe r into opt; vals receives its model contents.
 inline void build_recipe(int r, std::optional<V> &opt, std::vector<int> &vals, int &base) {
   vals.clear();
@@ -132,6 +152,10 @@ inline void build_recipe(int r, std::optional<V> &opt, std::vector<int> &vals, i
   };
   if (r == 6) {
     adopt_small<V>(opt, vals, base);
+    return;
+  }
+  if (r >= 7) {
+    adopt_shape<V>(r, opt, vals, base);
     return;
   }
   opt.emplace();
